@@ -664,6 +664,8 @@ def _prim_atom(name, label, t, env, W):
         buf, radix, sign = (ev(x, env, W) for x in t[2])
         if not (isinstance(buf, tuple) and buf and buf[0] == "arr" and isinstance(radix, PI) and isinstance(sign, bool)):
             return OPAQUE
+        if not (2 <= radix.v <= 255):
+            return OPAQUE          # digits are compared as u8: radix 256 is outside the core's domain
         adt, from_str, be = mm.group(1), mm.group(2) == "true", mm.group(3) == "true"
 
         def err(kind):
